@@ -80,12 +80,26 @@ def main(argv):
             # auxiliary only: concentrate the search where the source changed (DESIGN §2.3)
             ctx.boost = max(ctx.boost, 4)
             ctx.notes.append("source drift against harness/anchors.json (budget x4): " + ", ".join(ctx.drift[:12]))
-        mod.run(ctx)
-        if ctx.disagreements and not ctx.failures and ctx.boost < 8:
-            ctx.boost = 8
-            ctx.notes.append("correspondence differs: failing-input search with boosted budget")
-            ctx.search_only = True
+        # coverage obligation on changed code (DESIGN §2.3): statements of drifted functions that the
+        # committed baseline does not have must be EXECUTED by this run's correspondence / oracle;
+        # a new branch that no generated input reaches is code the model was never compared with
+        cov = drift.Coverage(drift.new_statements(ctx.drift) if ctx.drift else [], common.RUN)
+        cov.start()
+        try:
             mod.run(ctx)
+            if ctx.disagreements and not ctx.failures and ctx.boost < 8:
+                ctx.boost = 8
+                ctx.notes.append("correspondence differs: failing-input search with boosted budget")
+                ctx.search_only = True
+                mod.run(ctx)
+        finally:
+            cov.stop()
+        unc = cov.uncovered()
+        if unc:
+            ctx.uncovered = unc
+            ctx.notes.append(f"{len(unc)} new statement(s) of changed functions were never executed by this run")
+        elif unc is None and cov.stmts:
+            ctx.notes.append("statement coverage of changed functions not measured (sys.monitoring unavailable)")
         return common.finish(ctx, getattr(mod, "MATCHERS", {}))
     except common.Infra as e:
         print(f"INFRASTRUCTURE-ERROR property={prop}: {e}", file=sys.stderr)
